@@ -329,6 +329,9 @@ class C18Step2D(_Base):
     def instances(self, tier):
         for op in OPS_2D:
             yield f"2d-{op}", dict(subject="2d", ops=[op])
+        # second axis with a gap: merging every axis is refused (axis 1 cannot be merged across the gap) - and then nothing has been merged
+        for op in ("merge_all2", "merge_all2_copy", "merge2", "fill"):
+            yield f"2d-gapped1-{op}", dict(subject="2d", ops=[op], gapped1=True)
 
     def declare(self, cx, p):
         x = {"f": declare_cells(cx, "f", [2, 2], "int"), "q": declare_cells(cx, "q", [2, 2], "int"), "g": declare_cells(cx, "g", [2, 2], "int"), "m": cx.int("m", 0, 100), "gm": cx.int("gm", 0, 100),
@@ -345,7 +348,11 @@ class C18Step2D(_Base):
         np = E.np
         H2 = E.mod("physt.histogram_nd").Histogram2D
         H1 = E.mod("physt.histogram1d").Histogram1D
-        mk = lambda vals, **kw: H2([np.asarray(x["e"][0]), np.asarray(x["e"][1])], np.asarray(nested(vals, [2, 2]), dtype=int), **kw)  # noqa: E731
+        ax1 = np.asarray(x["e"][1])
+        if p.get("gapped1"):
+            e1 = x["e"][1]
+            ax1 = np.asarray([[e1[0], e1[1]], [e1[1] + 1.0, e1[2] + 1.0]])
+        mk = lambda vals, **kw: H2([np.asarray(x["e"][0]), ax1], np.asarray(nested(vals, [2, 2]), dtype=int), **kw)  # noqa: E731
         h, g = mk(x["f"], errors2=np.asarray(nested(x["q"], [2, 2]), dtype=int), missed=x["m"]), mk(x["g"], missed=x["gm"])
         v, w, c = x["v"], x["w"], x["c"]
         other_bins = H2([np.asarray([1000.0, 1001.0, 1002.0]), np.asarray(x["e"][1])], np.asarray([[1, 1], [1, 1]]), missed=3)
@@ -386,6 +393,8 @@ class C18Step2D(_Base):
             "iadd_same": ("ok", iadd(g), g),
             "imul_pos": ("ok", imul(2), None),
             "merge2": ("ok", lambda: h.merge_bins(2, axis=0, inplace=True), None),
+            "merge_all2": ("ValueError", lambda: h.merge_bins(2, inplace=True), None),
+            "merge_all2_copy": ("ValueError", lambda: h.merge_bins(2), None),
             "iadd_diffbins": (("ValueError", "RuntimeError"), iadd(other_bins), other_bins),
             "isub_diffbins": (("ValueError", "RuntimeError"), isub(other_bins), other_bins),
             "iadd_1d": ("ValueError", iadd(one_d), None),
